@@ -1629,6 +1629,9 @@ def _default_of(E, st, ty, fid, t):
     if k == 'adt' and ty['path'] in ('core::slice::iter::Iter', 'core::slice::iter::IterMut') and ty['args'] \
             and ty['args'][0].get('k') == 'adt' and ty['args'][0]['path'] == 'core::mem::maybe_uninit::MaybeUninit':
         return 'EMPTY-SLICEIT'
+    if k == 'ref' and ty['to'].get('k') == 'slice' and ty['to']['elem'].get('k') == 'adt' \
+            and ty['to']['elem']['path'] == 'core::mem::maybe_uninit::MaybeUninit':
+        return 'EMPTY-SLICE'
     if k == 'tuple' and not ty['elems']:
         return UNIT
     return None
@@ -1720,6 +1723,12 @@ def m_take(E, st, fid, t, args, dest_ty):
             new = ('sliceit', old[1], old[3], old[3], old[4])
         else:
             new = None
+    if new == 'EMPTY-SLICE':
+        # the default slice is empty: nothing can be reached through it (kept at the end of the old one)
+        if old[0] == 'ref' and old[2][0] == 'slice':
+            new = ('ref', old[1], ('slice', old[2][1], old[2][3], old[2][3]))
+        else:
+            new = None
     if new is None:
         return E.opaque_call(st, fid, t, args, dest_ty)
     out = []
@@ -1792,9 +1801,28 @@ def m_replace(E, st, fid, t, args, dest_ty):
     if d[0] != 'ref':
         return E.opaque_call(st, fid, t, args, dest_ty)
     old = E.load(st, d[2])
+    nv = args[1]
+    if old[0] == 'map' and nv[0] == 'map' and old[1] != nv[1]:
+        # a whole container exchanged in place (`mem::replace(self, fresh)`): the place keeps its identity (the
+        # schemas and the exit checks speak about the receiver) and takes over the abstract state of the value
+        # moved in; the value handed back carries the state the place had -- as for `*self = fresh` (_transplant)
+        m1, m2 = st.maps.get(old[1]), st.maps.get(nv[1])
+        if m1 is not None and m2 is not None and not m1.dead and m1.borrowed and not m1.phantom \
+                and not m2.dead and not m2.borrowed and not m2.phantom and m2.len0 is None:
+            for f in ('len', 'holes', 'extras', 'hole_rng', 'extra_rng', 'contents', 'examined', 'pending',
+                      'asked', 'asked_carry', 'owned_extras'):
+                a, b = getattr(m1, f), getattr(m2, f)
+                setattr(m1, f, b)
+                setattr(m2, f, a)
+            st.zone.add_eq(m1.cap, m2.cap)
+            m1.replaced = m2.replaced or nv[1]
+            slots.aux_drop(st, lambda q: q in (('len', old[1]), ('len', nv[1])))
+            st.log('replaced', old[1], nv[1])
+            st.log('replace', E.tag_of(d), E.tag_of(nv), E.tag_of(old))
+            return [('ret', st, nv)]
     out = []
-    for s in E.store(st, d[2], args[1]):
-        s.log('replace', E.tag_of(d), E.tag_of(args[1]), E.tag_of(old))
+    for s in E.store(st, d[2], nv):
+        s.log('replace', E.tag_of(d), E.tag_of(nv), E.tag_of(old))
         out.append(('ret', s, old))
     return out
 
